@@ -74,7 +74,7 @@ def run_codec(ctx) -> RuleResult:
             left_ko, right_ko = _is_key_offset(ctx, module, node.left), _is_key_offset(ctx, module, node.right)
             other = node.right if left_ko else node.left
             other_text = U(other)
-            decoding = "view(numpy.uint32)" in other_text or 'view("uint32")' in other_text or "view('uint32')" in other_text
+            decoding = ".view(" in other_text and "uint32" in other_text
             if left_ko or right_ko:
                 where = module.loc(node)
                 if decoding:
@@ -153,7 +153,10 @@ def run_final(ctx) -> RuleResult:
     module = ctx.repo.module("numpoly.baseclass")
     new = ctx.repo.function(module.name, "ndpoly.__new__")
     fin = ctx.repo.function(module.name, "ndpoly.__array_finalize__")
-    set_new = _attr_stores(new, "obj")
+    returned = [n.value.id for n in ast.walk(new) if isinstance(n, ast.Return) and isinstance(n.value, ast.Name)]
+    if not returned:
+        raise AnalysisError("__new__ does not return a local object")
+    set_new = _attr_stores(new, returned[-1])
     fparams = [a.arg for a in fin.args.args]
     self_name, src_name = fparams[0], fparams[1]
     set_fin = _attr_stores(fin, self_name)
@@ -304,12 +307,17 @@ def run_header(ctx) -> RuleResult:
         joins[kw.arg] = sep
     # reader: groups[i] -> variable -> use
     lfunc = ctx.repo.function(lmod.name, "loadtxt")
+    groups_vars = {
+        n.targets[0].id for n in ast.walk(lfunc)
+        if isinstance(n, ast.Assign) and isinstance(n.targets[0], ast.Name) and isinstance(n.value, ast.Call)
+        and isinstance(n.value.func, ast.Attribute) and n.value.func.attr == "groups"
+    }
     group_use: Dict[int, ast.AST] = {}
     splits: Dict[int, Optional[str]] = {}
     for node in ast.walk(lfunc):
         if isinstance(node, ast.Assign) and len(node.targets) == 1 and isinstance(node.targets[0], ast.Name):
             for sub in ast.walk(node.value):
-                if isinstance(sub, ast.Subscript) and isinstance(sub.value, ast.Name) and sub.value.id == "groups" \
+                if isinstance(sub, ast.Subscript) and isinstance(sub.value, ast.Name) and sub.value.id in groups_vars \
                         and isinstance(sub.slice, ast.Constant):
                     idx = sub.slice.value
                     group_use[idx] = node
@@ -400,7 +408,9 @@ def run_header(ctx) -> RuleResult:
             arg = call.args[0]
             text = U(arg)
             m = isinstance(arg, ast.Call) and isinstance(arg.func, ast.Attribute) and arg.func.attr == "reshape"
-            ok = bool(m) and "len(keys)" in text.replace(" ", "").replace("len(keys)", "len(keys)")
+            keys_assign = group_use.get(captured.index("keys")) if "keys" in captured else None
+            keys_var = keys_assign.targets[0].id if keys_assign is not None else "keys"
+            ok = bool(m) and len(arg.args) == 2 and U(arg.args[1]) == f"len({keys_var})"
             result.ob("loadtxt restores the (elements, terms) layout before the structured view", ok, lmod.loc(call), text)
             if not ok:
                 result.add(Finding("R-HEADER", lmod, "loadtxt", call,
